@@ -145,6 +145,7 @@ def conformance_suite(tier):
     ok = 0
     fails = []
     interactions = 0
+    witnessed = {}
     for c in cases:
         def factory(c=c):
             return e1.build(c, e1.Rec(c))
@@ -152,8 +153,11 @@ def conformance_suite(tier):
         interactions += n
         if good:
             ok += 1
+            for (site, cls), k in getattr(e3.conformance, "last_classes", {}).items():
+                witnessed[f"{site}:{cls}"] = witnessed.get(f"{site}:{cls}", 0) + k
         else:
             fails.append((c["tag"], msg))
+    conformance_suite.witnessed = witnessed
     return ok, fails, interactions
 
 
